@@ -23,7 +23,8 @@ SPECS = [
     H("h_transcript::hashable_read_g1_checked", "C03.K.hashable.read.g1",
       "<G1Projective as Hashable<blake2b>>::read returns Ok only if uncompress succeeded AND the on-curve AND the subgroup oracle said yes; never panics",
       ["proofs/src/transcript/implementors.rs::<G1Projective as Hashable<State>>::read", "curves/src/bls12_381/g1.rs::G1Projective::from_compressed"],
-      "all buffers of length 0..=48, all oracle answers", "hashable-read:g1-checked", est=10, min_covers=2),
+      "all buffers of length 0..=48, all oracle answers", "hashable-read:g1-checked", est=10, min_covers=2,
+      oracle_scenario=["g1-decode-offsubgroup", "hashable"]),
 ]
 
 
